@@ -26,7 +26,7 @@ def seeded_table():
             vs = 'FAILS ' + ', '.join('`%s`' % short(v) for v in vf[:2]) + (' (+%d)' % (len(vf) - 2) if len(vf) > 2 else '')
             n['verus'] += 1
         elif st.startswith('could not read'):
-            vs = 'changed text outside the verifier\'s subset → undecided'
+            vs = 'front end rejects the changed function with its annotations → undecided'
             n['unread'] += 1
         elif st.startswith('proof-internal'):
             vs = 'proof-internal failure → undecided'
@@ -46,8 +46,8 @@ def seeded_table():
         rows.append('| %s | %s | %s | %s | %s | %s |' % (m['id'], ', '.join('`%s`' % f for f in m['files_changed']), need.replace('|', '/'),
                                                     vs, hs, c.get('verdict')))
     summ = ('%d seeded changes, %d reported as VIOLATION by the check of their property (%d with a concrete failing input replayed '
-            'on the changed code); the deductive stage alone fails a named obligation for %d, cannot read the rewritten text for %d '
-            '(exit 2 on its own; the harness supplies the verdict), and still verifies for %d.' % (
+            'on the changed code); the deductive stage alone fails a named obligation for %d, is undecided for %d (front end rejects the rewritten function or its now ill-fitting proof annotations, or only a proof-internal step fails: '
+            'exit 2 on its own; the harness supplies the verdict), and still verifies for %d.' % (
                 n['all'], n['det'], n['inp'], n['verus'], n['unread'], n['silent']))
     return summ + '\n\n' + '\n'.join(rows)
 
